@@ -31,6 +31,7 @@ deriving Repr, BEq, Inhabited
 structure Cfg where
   p1 : Nat := 0   -- 0 Greedy, 1 DepthFirst, 2 Greedy-random
   p2 : Nat := 0   -- 0 NetworkSimplex, 1 LongestPath
+  p3 : Nat := 0   -- 0 WMedian, 1 OrderingNoop (no model of the pipeline under it: only predicates and per-stage keys of later phases)
   p4 : Nat := 0   -- 0 SinkColoring, 1 VAlign, 2 PackRight, 3 NetworkSimplex, 4 BrandesKoepf
   bk : Int := -1
   p5 : Nat := 0   -- 0 Polyline, 1 Straight, 2 Ortho, 3 Splines, 4 Noop
